@@ -221,13 +221,14 @@ func C06(ctx *Ctx) {
 		guards []absint.GuardInfo
 		width  int
 		pos    string
+		lo, hi *absint.Int // a 16-bit patch written as two byte stores
 	}
 	var patches []patch
 	for _, ev := range ip.Events {
 		switch {
 		case ev.Kind == "dyn-store" && strings.Contains(absint.ValKey(ev.Args[1]), "a.code"):
 			v, _ := ev.Args[2].(*absint.Int)
-			patches = append(patches, patch{ev.Args[0].(*absint.Int), v, ev.PathL, 1, ctx.Prog.Pos(ev.Pos)})
+			patches = append(patches, patch{idx: ev.Args[0].(*absint.Int), val: v, guards: ev.PathL, width: 1, pos: ctx.Prog.Pos(ev.Pos)})
 		case ev.Kind == "ext-call" && strings.HasSuffix(ev.Callee, "PutUint16") && len(ev.Args) == 3:
 			sl, _ := ev.Args[1].(*absint.Slice)
 			v, _ := ev.Args[2].(*absint.Int)
@@ -247,11 +248,33 @@ func C06(ctx *Ctx) {
 					}
 				}
 				if okWin {
-					patches = append(patches, patch{sl.Off, v, ev.PathL, 2, ctx.Prog.Pos(ev.Pos)})
+					patches = append(patches, patch{idx: sl.Off, val: v, guards: ev.PathL, width: 2, pos: ctx.Prog.Pos(ev.Pos)})
 				} else {
 					R.Fail("offsets", "Finalize:u16-window", ctx.Prog.Pos(ev.Pos), "the 16-bit patch does not cover exactly two bytes: "+absint.ValKey(sl))
 				}
 			}
+		}
+	}
+	// two byte stores at x and x+1 under the same guards are one 16-bit patch
+	for i := 0; i < len(patches); i++ {
+		for j := 0; j < len(patches); j++ {
+			p, q := patches[i], patches[j]
+			if i == j || p.width != 1 || q.width != 1 || p.val == nil || q.val == nil {
+				continue
+			}
+			if o.Add(p.idx, absint.NewConst(p.idx.W, 1, p.idx.Signed)).Lin.Key() != q.idx.Lin.Key() || len(p.guards) != len(q.guards) {
+				continue
+			}
+			merged := patch{idx: p.idx, guards: p.guards, width: 2, pos: p.pos, lo: p.val, hi: q.val}
+			var rest []patch
+			for k, x := range patches {
+				if k != i && k != j {
+					rest = append(rest, x)
+				}
+			}
+			patches = append(rest, merged)
+			i = -1
+			break
 		}
 	}
 	if len(patches) != 2 {
@@ -267,8 +290,11 @@ func C06(ctx *Ctx) {
 				rAtom = d
 			}
 		}
-		if p.val != nil {
-			for _, d := range absint.LinDeps(p.val.Lin) {
+		for _, pv := range []*absint.Int{p.val, p.lo, p.hi} {
+			if pv == nil {
+				continue
+			}
+			for _, d := range absint.LinDeps(pv.Lin) {
 				if strings.HasPrefix(d.Key, "lookup#") || strings.Contains(d.Key, "lookup#") {
 					lAtom = d
 				}
@@ -312,8 +338,17 @@ func C06(ctx *Ctx) {
 				R.Fail("range-guard", "Finalize:relative", p.pos, fmt.Sprintf("the relative patch is not under (label found, diff<=127, diff>=-128) of the stored diff; guards in force: %v", gs))
 			}
 		} else {
-			wantVal := o.Convert(o.And(L, absint.NewConst(32, 0xFFFF, false)), 16, false, false).Lin.Key()
+			want16 := o.Convert(o.And(L, absint.NewConst(32, 0xFFFF, false)), 16, false, false)
+			wantVal := want16.Lin.Key()
 			rc, okRec := recs[3]
+			if p.val == nil && p.lo != nil && p.hi != nil {
+				// low byte first, high byte second
+				wl := o.Convert(want16, 8, false, false).Lin.Key()
+				wh := o.Convert(o.Shr(want16, absint.NewConst(16, 8, false), false), 8, false, false).Lin.Key()
+				if p.lo.Lin.Key() == wl && p.hi.Lin.Key() == wh {
+					p.val = want16
+				}
+			}
 			switch {
 			case p.val == nil || p.val.Lin.Key() != wantVal:
 				R.Fail("offsets", key+":value", p.pos, fmt.Sprintf("stores %s, want uint16(L & $FFFF) = %s", fmtVal(p.val), wantVal))
